@@ -255,11 +255,17 @@ def okTop : SStmt → Bool
 def okProg (p : SProg) : Bool := p.args.all (fun a => userName a.1) && p.body.all okTop
 
 
-/-- the annotation of an argument of the theorems' types, as `ReplaceTypeAnn` leaves it -/
+mutual
+/-- the annotation of a type, as `ReplaceTypeAnn` leaves it -/
 def tyAnn : Ty → SExp
   | .bool => .name "bool"
   | .qint w => .sub (.name "Qint") (.const (.int w))
-  | _ => .other "type"
+  | .qchar => .name "Qchar"
+  | .tuple ts => .sub (.name "Tuple") (.tuple (tyAnns ts))
+def tyAnns : List Ty → List SExp
+  | [] => []
+  | t :: ts => tyAnn t :: tyAnns ts
+end
 
 /-- the arguments as the rewriter sees them -/
 def aargsOf (p : SProg) : Args := p.args.map fun a => (a.1, tyAnn a.2)
